@@ -5,5 +5,5 @@ CONSTANTS Families = {"gen4", "focus6", "nop", "db", "incl"}
  Fixed = {}
 INIT Init
 NEXT Next
-INVARIANTS InvAll Dump
+INVARIANTS InvAllDump
 CHECK_DEADLOCK FALSE
